@@ -133,8 +133,20 @@ func (e *Encoder) rangeNext(in *ssa.Next, st *State, pc string) {
 	it, ok := e.ranges[in.Iter.(*ssa.Range)]
 	tup := in.Type().(*types.Tuple)
 	okv := e.freshVal("rng_ok", types.Typ[types.Bool])
-	kv := e.freshVal("rng_k", tup.At(1).Type())
-	vv := e.freshVal("rng_v", tup.At(2).Type())
+	kt, vt := tup.At(1).Type(), tup.At(2).Type()
+	if okr := ok && !in.IsString; okr {
+		// (`for _, v := range m` gives the unused component the invalid type: take the map's own types)
+		if mt, ismap := it.x.Type().Underlying().(*types.Map); ismap {
+			if b, isb := kt.(*types.Basic); isb && b.Kind() == types.Invalid {
+				kt = mt.Key()
+			}
+			if b, isb := vt.(*types.Basic); isb && b.Kind() == types.Invalid {
+				vt = mt.Elem()
+			}
+		}
+	}
+	kv := e.freshVal("rng_k", kt)
+	vv := e.freshVal("rng_v", vt)
 	e.assumeWT(kv, pc, st)
 	e.assumeWT(vv, pc, st)
 	if ok && !in.IsString {
